@@ -23,3 +23,10 @@ func c14Extra(r *Run) error {
 		"18 first values (quotes at either end, runs of quotes, backslash-quote, comment marks) x 4 second values carrying OR 1=1 x 3 filter shapes, and 6 filter lists with single-quoted value tokens, signed strings and 62-byte names")
 	return nil
 }
+
+// c20Extra: generated route declarations served by the real router for every credential form (bounded stand-in).
+func c20Extra(r *Run) error {
+	r.boundedGoTest("C20-battery", "for every generated route declaration and credential form, the handler runs only when the declaration's requirements (read off the builder calls: a declared permission stays declared; authentication as the last call that speaks of it says) are met by the identity the credential proves, and an authenticated session carries that identity",
+		"every sequence of up to 2 (thorough: 3) builder calls out of Authentication(true/false), Permissions(a), Permissions(b), Permissions(), LightWeight(true/false): 57 (400) routes x 15 header forms (none; valid tokens of 5 users; tampered after the genuine one was cached; expired; revoked; garbage; JWT-shaped; malformed / colon-less / empty-password Basic; unknown scheme) plus 5 password forms")
+	return nil
+}
